@@ -104,6 +104,7 @@ LEVEL = "proof"
 THEOREMS = ["C07_fail_closed", "C07_damage", "C07_transient", "C07_partial_decode",
             "C07_pointer_run_safe_partial", "C07_pointer_run_safe_refuted", "C07_pointer_lost_hint_partial", "C07_pointer_raise_aborts",
             "C07_pointer_unreadable_never_used", "C07_marker_keep", "C07_registered_marker_fallback_covers",
+            "C07_registered_marker_key_denotes", "C07_basename_marker_fallback_refuted",
             "C07_metadata_document_fail_closed", "C07_lost_section_refused", "C07_dangling_current_refused", "C07_run_protects_current_snapshot",
             "C07_json_section_lost_aborts", "C07_readable_records_complete", "C07_structured_damage_aborts",
             "C07_list_record_without_path_refused",
@@ -127,9 +128,11 @@ MANIFEST_ENTRY = {
                   "C07_fail_closed (every fault oracle: an abort raised while reachability / in-flight protection is established deletes "
                   "nothing; otherwise only unreferenced, unprotected, old files are deleted), C07_damage (missing or unparseable reachable "
                   "list / manifest aborts before the first sweep, under any additional faults), C07_transient (a run that reaches the sweeps "
-                  "read every list and manifest without an effective fault), C07_marker_keep and C07_registered_marker_fallback_covers (the "
-                  "regenerated marker name the writer registers a file under and the regenerated fallback of the collector agree: the "
-                  "paths protected when a marker's payload cannot be read contain the registered file) proved in Coq over the call-by-call "
+                  "read every list and manifest without an effective fault), C07_marker_keep and C07_registered_marker_fallback_covers / C07_registered_marker_key_denotes (the "
+                  "regenerated marker key the writer registers a file under and the regenerated fallback of the collector agree, for EVERY path the "
+                  "regenerated append_files guard accepts -- any sub-directory of data/ -- and every table-relative path: what is protected when a "
+                  "marker's payload cannot be read is exactly the registered file; C07_basename_marker_fallback_refuted: false for markers keyed "
+                  "by the basename, the unchanged library) proved in Coq over the call-by-call "
                   "collector model with regenerated path kernel, for both orders of the two preparatory phases (regenerated MARKERS_FIRST); "
                   "C07_pointer_run_safe_partial (the pointer plane CONNECTED to the collector: pointer resolved twice over metadata FILES "
                   "identified by name and compared by content, any unpublished versions on storage, any exists / listing / stat / read "
